@@ -190,7 +190,7 @@ class C04:
         for i, (stt, adr) in enumerate(final):
             if stt == S.NORMAL:
                 if adr in held:
-                    V("duplicate-address", "CA %d (NAME 0x%016X) and CA %d (NAME 0x%016X) are both operational on address %d"
+                    V("duplicate-address", "CA %d (NAME 0x%016X) and CA %d (NAME 0x%016X) are both operational on address %r"
                       % (held[adr], names[held[adr]], i, names[i], adr), site)
                 held[adr] = i
                 if adr is None or adr >= 254:
